@@ -15,8 +15,8 @@ ops (every line starts with `reset`: the harness rebuilds its fixture from the l
 <facts> = 33 tokens `key=value` in this order:
   id ul ud ub uo uf   sn sa sl sg sp su sf sm sb   tn ta tl tg tp tu tf tm tb   a0 af an ae ao am ax   cd pt
   hex: id ul sn sa sl tn ta tl an ae ao ("-" = empty);  decimal: ud ub uf sg sp su tg tp tu am pt;  0/1: uo sf sm tf tm a0 af ax
-  sb/tb ∈ none|act|exp|junk (ban file: absent / expiry now+3600 / now-3600 / unreadable number);  cd ∈ exp|act
-  (cool-down time part: 0 / now+600 masked)
+  sb/tb ∈ none|act|exp|junk (ban file: absent / expiry now+3600 / now-3600 / unreadable number);
+  cd ∈ exp|act|max|neg|negact (cool-down time part: 0 / now+600 masked / 0x7FFFFFF0 / 0 resp. now+600 with bit 31 of the word set)
 
 answers:  ok|err:<identifier|lookup> same|changed [wit=yes|no]     flood: r1,r2,…,rk pt=<n>
 The model's clock is the constant `fixedNow`; only offsets from "now" enter the lines.
@@ -90,8 +90,18 @@ def parseBoard (p : String) (ts : List String) : Option Board :=
              nuser := nu, friend := fr, inBM := bm, ban := ban }
   | _ => none
 
-def cdWord (act : Bool) (pt : Nat) : UInt32 :=
-  (if act then (fixedNow + 600).toUInt32 &&& 0x7FFFFFF0 else 0) ||| pt.toUInt32
+/-- the cool-down word a row describes: exp: time part 0; act: now+600 s; max: the largest time part;
+neg / negact: as exp / act with bit 31 set (a negative int32). -/
+def cdWord (cd : String) (pt : Nat) : Option UInt32 :=
+  let act : UInt32 := (fixedNow + 600).toUInt32 &&& 0x7FFFFFF0
+  let t : Option UInt32 :=
+    if cd = "exp" then some 0
+    else if cd = "act" then some act
+    else if cd = "max" then some 0x7FFFFFF0
+    else if cd = "neg" then some 0x80000000
+    else if cd = "negact" then some (0x80000000 ||| act)
+    else none
+  t.map (· ||| pt.toUInt32)
 
 def parseRow (ts : List String) : Option Row :=
   if ts.length ≠ 33 then none else
@@ -113,12 +123,12 @@ def parseRow (ts : List String) : Option Row :=
       let am ← (kv "am" am) >>= (parseNat · 3 255)
       let ax ← (kv "ax" ax) >>= parseBool
       let cdv ← kv "cd" cd
-      let act ← if cdv = "act" then some true else if cdv = "exp" then some false else none
       let pt ← (kv "pt" pt) >>= (parseNat · 2 15)
+      let cdw ← cdWord cdv pt
       pure { u := { id := id, level := ul, loginDays := ud.toUInt32, badPost := ub.toUInt8, over18 := uo, firstLogin := uf },
              src := src, tgt := tgt,
              art := { total0 := a0, found := af, argName := an, entName := ae, entOwner := ao, entMode := am.toUInt8, fileExists := ax },
-             cd := cdWord act pt, now := fixedNow }
+             cd := cdw, now := fixedNow }
   | _, _, _, _, _ => none
 
 /-! what the harness fixture can materialise (go/cmd/c08 applies the same test) -/
